@@ -3,7 +3,7 @@ from ..framework import Case, run_impl
 from .bmpref import *
 
 LEAN_MODULES = ["Op2Proofs.Props.C09", "Op2Proofs.Props.C09_Gen"]
-RULE = ("pictures obtained through the public reader from Python-encoded BMPs: heights 0, 32, ..., 256 (thorough: ... 1024) x both "
+RULE = ("pictures obtained through the public reader from Python-encoded BMPs: heights 0, 32, ..., 256, 2048, 2080 (thorough: ... 1024, 4096, 8224) x both "
         "scan-line orientations x palettes with 256 distinct random colours, partial colour tables (1..255 entries) x random pixels; "
         "each saved in the custom format and as a standard bitmap and loaded back through the format-detecting loader (ts.save); "
         "custom bytes compared with an independent Python encoder and (ts.specenc) with the frozen Lean description "
@@ -97,11 +97,13 @@ def check_peek(data, pos):
 
 def pictures(tier, rng):
     thorough = tier == "thorough"
-    hs = [0, 32, 64, 96, 128, 160, 256] + ([192, 224, 320, 512, 1024] if thorough else [])
+    # (heights from 2048 on: 32 * height no longer fits 16 bits — a length computed in a narrower type shows there)
+    hs = [0, 32, 64, 96, 128, 160, 256, 2048, 2080] + ([192, 224, 320, 512, 1024, 4096, 8224] if thorough else [])
     for H in hs:
         for sign in (1, -1):
             for variant in ("full", "partial", "partial1"):
                 if not thorough and H > 128 and variant == "partial1": continue
+                if H >= 2048 and (variant != "full" or (sign == 1 and not thorough)): continue
                 k = {"full": 0, "partial": rng.randrange(2, 256), "partial1": 1}[variant]
                 pal = distinct_palette(rng, k if k else 256)
                 rows = [bytes(rng.randrange(256) for _ in range(32)) for _ in range(H)]
@@ -123,7 +125,7 @@ def cases(tier, rng):
         for f in reps:
             yield Case(f"ts.specenc {hexs(f)}", expect=want, tag="bytes-function-of-picture")
     # custom files written by the independent encoder
-    for H in [0, 32, 64, 96] + ([128, 512] if thorough else []):
+    for H in [0, 32, 64, 96, 2048] + ([128, 512, 4128] if thorough else []):
         cols = distinct_palette(rng); pix = bytes(rng.randrange(256) for _ in range(32 * H))
         cu = enc_custom(H, [tuple(c) for c in cols], pix)
         yield Case(f"ts.load {hexs(cu)}", check=check_load_custom(H, cols, pix), tag="load-custom")
